@@ -16,7 +16,7 @@ if ! cargo build --release --offline >"$LOG" 2>&1; then
     rm -f "$LOG"
     exit 2
 fi
-if [ "${1:-}" = "C19" ]; then
+if [ "${1:-}" = "C19" ] || [ "${1:-}" = "C17" ]; then
     # the same driver source against three fatfs feature sets
     for v in "alloc,unicode:A" "unicode:B" "alloc:C"; do
         if ! (cd ../featdrv && cargo build --release --offline --features "${v%%:*}" --target-dir "target/${v##*:}") >"$LOG" 2>&1; then
